@@ -15,6 +15,13 @@ result).  Every successful add_function call is an entry of the log of its own, 
 registered already (a python function cannot know through which registration it is called: invocation traces name
 function objects, the oracle and the comparison with the model map registrations to them).
 
+Objects that are USED more than once (stream `used-object`): an object is created without the input its implementations
+need, read too early (the implementation raises AttributeError, or ValueError for an unusable input - inside wrappers,
+inside a nested read, before a wrapper's yield), probed with has_value, re-evaluated with reevaluate_cache, given its
+input and read again, while registrations come and go.  The oracle demands of every value that has to be COMPUTED on
+such an object what it demands on a fresh one (keys `obj-…`): the outcome depends on the registrations (and the input),
+not on what was read on the object before.  The model keeps the re-entrancy marks as state (HookUse.lean).
+
 Calls into pyroll go through Real.pyroll: an exception that comes out of pyroll is data (answer `raised <Type>` = broken
 correspondence, and a `raises-<op>` verdict of the oracle where the property demands the operation to work), never a
 crash of the harness; exceptions of the harness' own code propagate.
@@ -37,7 +44,12 @@ RULE = ("random histories (quick <= 25, thorough <= 60 ops) over hierarchies of 
         "and repeated; class and instance accesses interleaved everywhere (they create the per-subclass Hook objects); "
         "implementations are data: constant / None / read the hook on a fresh instance of another class (per-object "
         "re-entrancy), cooperating wrapper x -> 10x+k with or without default, declining wrapper (at most 4 wrappers per "
-        "history when wrappers without default may occur, else at most 6). A case is one "
+        "history when wrappers without default may occur, else at most 6), implementations (with or without the `cycle` "
+        "argument) and wrappers that read an input attribute of their object and raise AttributeError / ValueError while "
+        "it is missing / unusable; objects that STAY (stream `used-object`, a sixth of the budget, and 0-20 % of the "
+        "operations elsewhere): created without input, read too early, probed with has_value, re-evaluated with "
+        "reevaluate_cache, input supplied / spoiled / removed, read again - evidence counters "
+        "used-object:<get|has|reeval>:<value|no-value|raised|cached>-after-<previous outcome>. A case is one "
         "history; non-trivial = at least two live registrations are visible in some observed chain; distinct by the "
         "canonical op list.")
 ASSUMPTIONS = [
@@ -45,9 +57,11 @@ ASSUMPTIONS = [
     "lookup on classes through descriptors and the metaclass __setattr__, generator protocol (next/send/StopIteration.value), "
     "list.append/remove, try/finally",
     "the model is tied to the code by sampled differential runs (answer and full registry state compared after every op)",
-    "implementations are drawn from a four-constructor vocabulary (constant, delegate to a fresh instance, wrapper "
-    "x -> 10x+k / default, declining wrapper); wrappers outside the documented protocol (several yields, no cycle test) "
-    "and implementations that raise are outside this model (C07)",
+    "implementations are drawn from a small vocabulary (constant, delegate to a fresh instance, wrapper "
+    "x -> 10x+k / default, declining wrapper, constant / wrapper that needs an input attribute of its object and raises "
+    "AttributeError or ValueError without it, with or without the `cycle` argument); wrappers outside the documented "
+    "protocol (several yields, no cycle test) and exceptions other than these two are outside this model (C07)",
+    "the value cache of an object (`__cache__`) is read directly by the harness to tell computed from cached reads",
 ]
 
 TIERS = ("first", "normal", "last")
@@ -72,8 +86,16 @@ def _imports():
 #                                                earlier registration is handed to add_function)
 #   ("rm", c, label, how)                        K<c>.h.remove_function(hf)   how: call | with (c is ignored: hf.hook)
 #   ("fns", c)                                   K<c>.h.functions
-#   ("read", c)                                  K<c>().h
+#   ("read", c)                                  i = K<c>(); i.inp = 1; i.h          (fresh object, input supplied)
+#   ("obj", o, c)                                object #o = K<c>()  - kept for the rest of the history, no input yet
+#   ("oinp", o, s)                               input of object #o: s = 0 `del o.inp` | 1 `o.inp = -1` (bad) | 2 `o.inp = 1`
+#   ("oread", o, how)                            how = get: `o.h`   |  has: `o.has_value("h")`        (on the USED object)
+#   ("oreval", o)                                `o.reevaluate_cache()`
 # body: ("ret", v|None) ("del", c) ("wrap", k, d|None) ("decline",)
+#       ("need", v, aware01)   plain implementation that reads the input of its object: `self.inp` missing ->
+#                              AttributeError (as any too-early read), negative -> ValueError, else answers v; with
+#                              aware = 1 it takes the `cycle` argument and steps aside (None) when told cycle=True
+#       ("wneed", k, d|None)   cooperating wrapper like ("wrap", k, d) that reads the input of its object BEFORE its yield
 # ---------------------------------------------------------------------------------------------------------------
 def body_tokens(b):
     if b[0] == "ret":
@@ -82,6 +104,10 @@ def body_tokens(b):
         return f"del {b[1]}"
     if b[0] == "wrap":
         return f"wrap {b[1]} {'_' if b[2] is None else b[2]}"
+    if b[0] == "need":
+        return f"need {b[1]} {b[2]}"
+    if b[0] == "wneed":
+        return f"wneed {b[1]} {'_' if b[2] is None else b[2]}"
     return "decline"
 
 
@@ -93,11 +119,22 @@ class _Runaway(BaseException):
     """raised by the harness' implementations when one read has made more than TRACE_LIMIT invocations"""
 
 
+class _InputError(ValueError):
+    """raised by the harness' `need` implementations for an object whose input is unusable (an implementation that
+    fails for a reason other than a missing attribute); never an error of the harness, never one of pyroll"""
+
+
+class _ExpRaise(Exception):
+    """oracle-internal: the evaluation the registrations demand reaches an implementation that raises for this object
+    (kind = "attr" | "input"); the property demands nothing of the outcome of such a read"""
+
+
 # Under the documented protocol one read on a chain of w wrappers and p plain implementations makes at most
 # (p + 1) * ((w + 1) * (w + 2) + p) invocations (each wrapper entered once, skipped once per later wrapper; every plain
 # implementation may create one further object), i.e. < 10^4 for the generated sizes.  Only code that applies wrappers
 # repeatedly (or a chain of wrappers that answer None, which the generator keeps short) gets near this limit.
 TRACE_LIMIT = 100000
+MODEL_TRACE_LIMIT = 12000     # events of one read up to which the Lean model is run on it (see run)
 
 
 class Real:
@@ -121,6 +158,9 @@ class Real:
         self.lines = []            # model lines actually emitted
         self.answers = []          # (line index, answer, obs)
         self.seq = 0
+        self.objs = {}             # o -> dict(inst, cls, s = input state 0 missing / 1 bad / 2 good, cached = the oracle's
+        #                            belief that a determined value is cached on the object)
+        self.keep = []             # every object ever created in this history stays alive: `id(instance)` is never reused
 
     # ---- implementations as data --------------------------------------------------------------------------------
     def inst_index(self, obj):
@@ -157,6 +197,9 @@ class Real:
                 R.depth += 1
                 try:
                     inst = R.classes[c]()
+                    R.keep.append(inst)
+                    if "inp" in self.__dict__:
+                        inst.inp = self.__dict__["inp"]      # the object read on behalf of this one has the same input
                     R.record("inst", c, R.inst_index(inst), None)
                     try:
                         return inst.h
@@ -165,7 +208,27 @@ class Real:
                 finally:
                     R.depth -= 1
             return delegating
-        if kind == "wrap":
+        if kind == "need":
+            v, aware = body[1], body[2]
+
+            def use_input(obj):
+                if obj.inp < 0:          # `obj.inp` itself raises AttributeError while the input is missing
+                    raise _InputError("negative input")
+            if aware:
+                def needing(self, cycle):
+                    if cycle:
+                        R.record("cyc", fid, R.inst_index(self), None)
+                        return None
+                    R.record("call", fid, R.inst_index(self), None)
+                    use_input(self)
+                    return v
+            else:
+                def needing(self):
+                    R.record("call", fid, R.inst_index(self), None)
+                    use_input(self)
+                    return v
+            return needing
+        if kind in ("wrap", "wneed"):
             k, d = body[1], body[2]
 
             def wrapping(self, cycle):
@@ -173,6 +236,8 @@ class Real:
                     R.record("cyc", fid, R.inst_index(self), None)
                     return None
                 R.record("enter", fid, R.inst_index(self), None)
+                if kind == "wneed" and self.inp < 0:      # (`self.inp` raises AttributeError while the input is missing)
+                    raise _InputError("negative input")
                 x = yield
                 if x is not None and type(x) is not int:
                     # whatever the implementation under test sends in: recorded (the oracle compares it with the value
@@ -192,6 +257,9 @@ class Real:
     def fid_of(self, rid):
         return self.meta[rid]["fid"] if 0 <= rid < len(self.meta) else rid
 
+    def meta_body_of_fid(self, fid):
+        return self.meta[fid]["body"] if 0 <= fid < len(self.meta) else ("?",)
+
     def pyroll(self, opname, thunk, attr=False, judge=True):
         """run a call into the implementation under test.  Exceptions that come out of pyroll (a pyroll frame in the
         traceback) are DATA: returned as ("raised", text) and judged by the oracle / the correspondence; exceptions of
@@ -200,6 +268,8 @@ class Real:
         try:
             return ("ok", thunk())
         except Exception as ex:       # _Runaway is a BaseException and passes through
+            if isinstance(ex, _InputError):
+                return ("input", None)    # raised by a `need` implementation of the harness (bad input), passed on by pyroll
             if attr and isinstance(ex, AttributeError):
                 return ("attr", None)     # the documented answer: no such hook / no value
             e, seen = ex, set()
@@ -228,16 +298,28 @@ class Real:
             return None  # emitted by apply (needs the real __mro__)
         if n in ("ext", "tc", "ti", "fns", "read"):
             return f"{n} {op[1]}" if op[1] in self.classes else None
+        if n == "obj":
+            return f"obj {op[1]} {op[2]}" if op[1] not in self.objs and op[2] in self.classes else None
+        if n == "oinp":
+            return f"oinp {op[1]} {op[2]}" if op[1] in self.objs else None
+        if n == "oread":
+            return f"{'ohas' if op[2] == 'has' else 'oread'} {op[1]}" if op[1] in self.objs else None
+        if n == "oreval":
+            return f"oreval {op[1]}" if op[1] in self.objs else None
         if n == "add":
             _, label, c, tier, w, body, how = op
             if c not in self.classes or (body[0] == "del" and body[1] not in self.classes):
                 return None
+            if body[0] == "wneed" and tier in ("first", "both"):
+                return None      # not part of the vocabulary (see WNEED_NOTE)
             return f"add {c} {'first' if tier == 'both' else tier} {w} {body_tokens(body)}"
         if n in ("readd", "same"):
             label, c, tier, src = op[1:5]
             if c not in self.classes or src not in self.label:
                 return None
             m = self.meta[self.label[src]]
+            if m["body"][0] == "wneed" and tier == "first":
+                return None      # not part of the vocabulary (see WNEED_NOTE)
             return f"add {c} {tier} {m['w']} {body_tokens(m['body'])}"
         if n == "rm":
             _, c, label, how = op
@@ -374,6 +456,23 @@ class Real:
             return line, self.functions_answer(op[1])
         if n == "read":
             return line, self.read_answer(op[1])
+        if n == "obj":
+            st, inst = self.pyroll("obj", lambda: self.classes[op[2]]())
+            if st != "ok":
+                return line, inst
+            self.keep.append(inst)
+            self.objs[op[1]] = {"inst": inst, "cls": op[2], "s": 0, "cached": False}
+            return line, "ok"
+        if n == "oinp":
+            ob = self.objs[op[1]]
+            if op[2] == 0:
+                ob["inst"].__dict__.pop("inp", None)
+            else:
+                ob["inst"].inp = -1 if op[2] == 1 else 1
+            ob["s"] = op[2]
+            return line, "ok"
+        if n in ("oread", "oreval"):
+            return line, self.object_answer(op[1], op[2] if n == "oread" else "reeval")
         raise ValueError(op)
 
     def functions_ids(self, c):
@@ -409,11 +508,13 @@ class Real:
 
         def do():
             inst = self.classes[c]()
+            self.keep.append(inst)
+            inst.inp = 1                # a fresh object WITH its input (implementations `need` never fail on it)
             self.insts.append(inst)
             return inst.h
         try:
             st, v = self.pyroll("read", do, attr=True, judge=False)    # judged by check_read
-            if st == "attr":
+            if st in ("attr", "input"):
                 v = None
             elif st == "raised":
                 self.read_raised, v = self.raised[-1][1], None
@@ -421,6 +522,76 @@ class Real:
             v = None
             self.runaway = True
         return v, list(self.trace)
+
+    def object_use(self, o, how):
+        """one use of the persistent object #o: how = get (`o.h`) | has (`o.has_value("h")`) | reeval
+        (`o.reevaluate_cache()`).  Returns dict(res, v, tr, computing, runaway, raised):
+        res = the answer token: a value / `_` no value (AttributeError) / `A` AttributeError out of reevaluate_cache /
+        `E` the ValueError of a `need` implementation / `1` `0` for has / `nocache` / `raised <Type>`"""
+        ob = self.objs[o]
+        inst = ob["inst"]
+        self.trace = []
+        self.insts = [inst]
+        self.depth = 0
+        self.runaway = False
+        self.read_raised = None
+        cache = inst.__dict__.get("__cache__")
+        held = cache.get("h") if isinstance(cache, dict) else None       # observed: a value is cached on the object
+        haskey = isinstance(cache, dict) and "h" in cache
+        out = {"v": None, "runaway": False, "raised": None, "held": held is not None}
+        # is a value being COMPUTED by this use?  (the property speaks about computed values; a cached value - the text of
+        # Hook.__get__: saved "if the value was determined from functions" - is handed out without consulting anything)
+        if how == "reeval":
+            out["computing"] = haskey
+        else:
+            out["computing"] = not (ob["cached"] and held is not None)
+        thunk = {"get": lambda: inst.h, "has": lambda: inst.has_value("h"),
+                 "reeval": lambda: inst.reevaluate_cache()}[how]
+        try:
+            st, v = self.pyroll("o" + how, thunk, attr=True, judge=False)      # judged by check_read
+        except _Runaway:
+            self.runaway = out["runaway"] = True
+            out["res"] = "runaway"
+            out["tr"] = []
+            return out
+        out["tr"] = list(self.trace)
+        if st == "raised":
+            self.read_raised = out["raised"] = self.raised[-1][1]
+            out["res"] = v
+        elif st == "input":
+            out["res"] = "E"
+        elif st == "attr":
+            out["res"] = "A" if how == "reeval" else "_"
+        elif how == "reeval":
+            if not haskey:
+                out["res"] = "nocache"
+            else:
+                c2 = inst.__dict__.get("__cache__")
+                out["v"] = c2.get("h") if isinstance(c2, dict) else None
+                out["res"] = "_" if out["v"] is None else str(out["v"])
+        elif how == "has":
+            out["v"] = v
+            out["res"] = "1" if v is True else "0" if v is False else f"<{type(v).__name__}>"
+        else:
+            out["v"] = v
+            out["res"] = "_" if v is None else str(v)
+        # the oracle's belief about the cache (from the text: a value determined from the functions is saved;
+        # reevaluate_cache replaces what is cached by what the functions yield now)
+        if st == "ok" and out["computing"]:
+            if how == "get":
+                ob["cached"] = v is not None
+            elif how == "has":
+                ob["cached"] = v is True
+            else:
+                ob["cached"] = out["v"] is not None
+        return out
+
+    def object_answer(self, o, how):
+        out = self.object_use(o, how)
+        self.last_use = out
+        if out["runaway"]:
+            return "runaway"
+        return " ".join([out["res"]] + [f"{k}{n}" for (k, n, _, _) in out["tr"]])
 
     def read_answer(self, c):
         v, tr = self.read(c)
@@ -444,7 +615,17 @@ class Real:
                 stores = [getattr(h, a, None) for a in self.STORES]     # the anchored state (properties.jsonl)
                 out.append("1|" + ";".join("?" if s_ is None else ids_str([self.hf_id.get(id(f), -1) for f in s_])
                                            for s_ in stores))
-        return f"obs {n}", " ".join(out)
+        # the re-entrancy flag (anchored state `HookFunction.cycle`: "whether the function is currently executing on some
+        # instance"): between two operations nothing is executing
+        marked = []
+        for rid, hf in enumerate(self.hfs):
+            if isinstance(hf, self.HookFunction) and self.hf_id.get(id(hf)) == rid:
+                try:
+                    if hf.cycle:
+                        marked.append(rid)
+                except Exception:
+                    marked.append(-1)
+        return f"obs {n}", " ".join(out) + " | c:" + ids_str(marked)
 
     # ---- the independent oracle: the property as stated -----------------------------------------------------------
     def expected_chain(self, c):
@@ -486,14 +667,19 @@ class Real:
             return [("order-duplicate", what)]
         return [("order", what)]
 
-    def expected_eval(self, c, depth, out):
-        """value demanded for a read on a fresh instance of K<c>; appends per-object expectations to `out`:
+    def expected_eval(self, c, depth, out, s=2):
+        """value demanded for a read on an instance of K<c> whose input is in state `s` (2 = supplied: fresh objects);
+        appends per-object expectations to `out`:
         dict(cls, chain, enters, received [(rid, value) in the order the wrappers are left], calls, decls, ok) in the
-        order the objects are created (all lists are lists of REGISTRATIONS; compare through fid_of)"""
+        order the objects are created (all lists are lists of REGISTRATIONS; compare through fid_of).
+        Raises _ExpRaise when an implementation that is to be consulted raises for this input."""
         chain = self.expected_chain(c) if c in self.classes else []
         me = {"cls": c, "chain": [rid for rid, _ in chain]}
         out.append(me)
         ws = [(rid, m) for rid, m in chain if m["w"] and m["body"][0] != "decline"]
+        if s != 2 and any(m["body"][0] == "wneed" for _, m in ws):
+            # every wrapping wrapper is entered before anything else is consulted: this one raises for this input
+            raise _ExpRaise("attr" if s == 0 else "input")
         me["decls"] = [rid for rid, m in chain if m["w"] and m["body"][0] == "decline"]
         calls = []
         v = None
@@ -505,11 +691,21 @@ class Real:
             b = m["body"]
             if b[0] == "ret":
                 v = b[1]
+            elif b[0] == "need":
+                if s != 2:
+                    raise _ExpRaise("attr" if s == 0 else "input")
+                v = b[1]
             elif b[0] == "del" and depth == 0:
                 sub = []
-                v = self.expected_eval(b[1], 1, sub)
+                try:
+                    v = self.expected_eval(b[1], 1, sub, s)      # the object it creates has the same input
+                except _ExpRaise as e:
+                    if e.args[0] != "attr":
+                        raise
+                    v = None        # the delegating implementation answers None when its read raises AttributeError
+                    sub = [{"cls": b[1], "ok": False}]
                 out.extend(sub)
-                ok = ok and all(s["ok"] for s in sub)
+                ok = ok and all(s_["ok"] for s_ in sub)
             if v is not None:
                 break
         me["calls"] = calls
@@ -527,23 +723,23 @@ class Real:
     def fids(self, rids):
         return [self.fid_of(r) for r in rids]
 
-    def check_read(self, c, v, tr):
-        objs = []
-        exp_v = self.expected_eval(c, 0, objs)
+    def check_use(self, o, how, out):
+        """the oracle for one use of a persistent object: whatever happened to the object before (failed or successful
+        reads, other input), a value that has to be computed is the one the registrations demand for an object of this
+        class with this input - same clauses as for a fresh object, keys prefixed `obj-`"""
+        ob = self.objs[o]
+        if not out["computing"]:
+            return []
+        probs = self.check_read(ob["cls"], out["v"], out["tr"], s=ob["s"], how=how,
+                                who=f"{ {'get': 'reading', 'has': 'has_value on', 'reeval': 'reevaluate_cache on'}[how]} "
+                                    f"the used object #{o} = K{ob['cls']}() (input state {ob['s']})", res=out["res"])
+        return [(k if k.startswith("runaway") else "obj-" + k, w) for k, w in probs]
+
+    def scope_problems(self, c, tr, who):
+        """scope: whatever ran on an object belongs to the chain of that object's class.  The trace names FUNCTION objects
+        (f<n> = the function first registered as registration n); a function takes part through each of its registrations.
+        Returns (problems, events per object, class of each object)"""
         probs = []
-        if self.runaway:
-            if all(o["ok"] for o in objs):
-                return [("wrapper-not-once", f"reading K{c}().h made more than {TRACE_LIMIT} invocations; the chain "
-                         f"{objs[0]['chain']} demands each wrapper once and each plain implementation at most once")]
-            return [("runaway-outside-protocol", "")]      # not a violation: see run_history
-        if getattr(self, "read_raised", None):
-            return [("raises-read", f"reading K{c}().h raised {self.read_raised}; the registrations demand the value "
-                     f"{exp_v} (chain {objs[0]['chain']})")]
-        if v != exp_v:
-            probs.append(("value", f"K{c}().h = {v}, the registrations demand {exp_v} "
-                          f"(chain {objs[0]['chain']})"))
-        # scope: whatever ran on an object belongs to the chain of that object's class.  The trace names FUNCTION objects
-        # (f<n> = the function first registered as registration n); a function takes part through each of its registrations.
         by_inst = {}
         inst_cls = {0: c}
         for (k, n, i, x) in tr:
@@ -561,10 +757,51 @@ class Real:
                 if n not in chain_f:
                     regs = [r for r in range(len(self.meta)) if self.meta[r]["fid"] == n]
                     key = "removed-consulted" if not any(self.meta[r]["live"] for r in regs) else "scope-extra"
-                    probs.append((key, f"reading K{c}().h: function f{n} (registrations "
+                    probs.append((key, f"{who}: function f{n} (registrations "
                                   f"{[(r, 'K%d' % self.meta[r]['cls'], 'live' if self.meta[r]['live'] else 'removed') for r in regs]}) "
                                   f"was invoked on an instance of K{inst_cls[i]} whose chain is {chain}"))
                     break
+        return probs, by_inst, inst_cls
+
+    def check_read(self, c, v, tr, s=2, how="get", who=None, res=None):
+        """the oracle for one evaluation on an object of class K<c> whose input is in state `s`; `how`: the value was
+        asked for by attribute read (get), has_value (has: v is a bool) or reevaluate_cache (reeval: v = what is cached
+        afterwards); `res`: the answer token (E / A = the exception of a `need` implementation came out)"""
+        objs = []
+        who0 = who or f"reading K{c}().h"
+        try:
+            exp_v = self.expected_eval(c, 0, objs, s)
+        except _ExpRaise:
+            # an implementation that is to be consulted raises for this input: the property demands nothing of the
+            # outcome of such an evaluation; only the scope clause (whatever ran belongs to the chain of its object's class)
+            self.last_protocol_ok = False
+            if self.runaway:
+                return [("runaway-outside-protocol", "")]
+            if getattr(self, "read_raised", None):
+                return [("raises-read", f"{who0} raised {self.read_raised} (out of pyroll itself)")]
+            return self.scope_problems(c, tr, who0)[0]
+        probs = []
+        if self.runaway:
+            if all(o["ok"] for o in objs):
+                return [("wrapper-not-once", f"{who0} made more than {TRACE_LIMIT} invocations; the chain "
+                         f"{objs[0]['chain']} demands each wrapper once and each plain implementation at most once")]
+            return [("runaway-outside-protocol", "")]      # not a violation: see run_history
+        if getattr(self, "read_raised", None):
+            return [("raises-read", f"{who0} raised {self.read_raised}; the registrations demand the value "
+                     f"{exp_v} (chain {objs[0]['chain']})")]
+        if res in ("E", "A"):
+            probs.append(("value", f"{who0} let the exception of an implementation out; the registrations demand the "
+                          f"value {exp_v} without consulting an implementation that fails for this input "
+                          f"(chain {objs[0]['chain']})"))
+        elif how == "has":
+            if v != (exp_v is not None):
+                probs.append(("value", f"{who0} = {v}, the registrations demand the value {exp_v} "
+                              f"(chain {objs[0]['chain']})"))
+        elif v != exp_v:
+            probs.append(("value", f"{who0}: value {v}, the registrations demand {exp_v} "
+                          f"(chain {objs[0]['chain']})"))
+        sp, by_inst, inst_cls = self.scope_problems(c, tr, who0)
+        probs.extend(sp)
         self.last_protocol_ok = all(o["ok"] for o in objs)
         if probs:
             return probs
@@ -573,7 +810,7 @@ class Real:
         # every object in creation order: wrappers entered exactly once, in order; each receives the value of the rest
         # of the chain of that object's class; plain implementations consulted in order up to the first result
         if len(objs) != len(inst_cls) or any(objs[i]["cls"] != inst_cls.get(i) for i in range(len(objs))):
-            probs.append(("trace-objects", f"reading K{c}().h created objects of classes "
+            probs.append(("trace-objects", f"{who0} created objects of classes "
                           f"{[inst_cls[i] for i in sorted(inst_cls)]}, expected {[o['cls'] for o in objs]}"))
             return probs
         for i, o in enumerate(objs):
@@ -584,7 +821,7 @@ class Real:
             decls = [n for (k, n, x) in evs if k == "decl"]
             e_enters = self.fids(o["enters"])
             e_exits = [(self.fid_of(r), x) for r, x in o["received"]]
-            who = f"reading K{c}().h, object #{i} (K{o['cls']})"
+            who = f"{who0}, object #{i} (K{o['cls']})"
             if enters != e_enters or [n for n, _ in exits] != e_enters[::-1]:
                 key = "wrapper-not-once" if sorted(enters) != sorted(e_enters) else "wrapper-order"
                 probs.append((key, f"{who}: wrapper functions entered {enters} / left {[n for n, _ in exits]}, "
@@ -624,7 +861,12 @@ def run_history(ops, with_oracle=True, sweep=True):
         if ans == "runaway":
             # the read was aborted by the harness; under the protocol that is a violation, outside of it (wrappers
             # answering None) nothing is demanded: the history ends here, without this op, on both sides
-            pr = real.check_read(op[1], None, []) if with_oracle else []
+            if not with_oracle:
+                pr = []
+            elif op[0] in ("oread", "oreval"):
+                pr = real.check_use(op[1], op[2] if op[0] == "oread" else "reeval", real.last_use)
+            else:
+                pr = real.check_read(op[1], None, [])
             problems.extend((i, k, w) for (k, w) in pr if k != "runaway-outside-protocol")
             stats["runaway"] = True
             return result()
@@ -661,6 +903,23 @@ def run_history(ops, with_oracle=True, sweep=True):
             stats["reads"] = stats.get("reads", 0) + 1
             if not getattr(real, "last_protocol_ok", True):
                 stats["outside"] = stats.get("outside", 0) + 1
+        elif op[0] in ("oread", "oreval"):
+            how = op[2] if op[0] == "oread" else "reeval"
+            use = real.last_use
+            ob = real.objs[op[1]]
+            stats["maxchain"] = max(stats["maxchain"], len(real.expected_chain(ob["cls"])))
+            # what kind of use this was (evidence: the inputs the class of defects "state kept on a used object" needs)
+            kind = ("cached" if not use["computing"] else "raised" if use["res"] in ("E", "A") or (
+                use["res"] == "_" and any(k == "call" and real.meta_body_of_fid(n)[0] == "need" and ob["s"] != 2
+                                          for (k, n, _, _) in use["tr"][-1:])) else
+                    "value" if use["v"] is not None and use["v"] is not False else "no-value")
+            prev = ob.get("last")
+            stats.setdefault("uses", []).append(f"{how}:{kind}" + (f"-after-{prev}" if prev else "-first"))
+            if kind != "cached":
+                ob["last"] = kind
+            for key, what in real.check_use(op[1], how, use):
+                if key != "runaway-outside-protocol":
+                    problems.append((i, key, what))
     if with_oracle and sweep:
         # final sweep: the order for EVERY class, whatever was touched before
         for c in list(real.order):
@@ -682,6 +941,19 @@ def run_history(ops, with_oracle=True, sweep=True):
             for key, what in real.check_read(c, v, tr):
                 if key != "runaway-outside-protocol":
                     problems.append((len(ops), key, "final sweep, " + what))
+        # ... and every used object: as it is, and once more after its input was supplied (an object that was asked too
+        # early resolves like any other object of its class once the input is there)
+        for o in sorted(real.objs):
+            for supply in (False, True):
+                if supply:
+                    if real.objs[o]["s"] == 2:
+                        continue
+                    real.apply(("oinp", o, 2))
+                real.problems_now = []
+                use = real.object_use(o, "get")
+                for key, what in real.check_use(o, "get", use):
+                    if key != "runaway-outside-protocol":
+                        problems.append((len(ops), key, "final sweep, " + what))
     return result()
 
 
@@ -775,12 +1047,16 @@ def gen_hierarchy(rng):
     return [("class", c, bases_of[c], int(c in hooks), int(rng.random() < 0.15)) for c in range(n)]
 
 
-def gen_body(rng, w, n_classes, with_default=False):
+def gen_body(rng, w, n_classes, with_default=False, need_p=0.0, tier="normal"):
     if w:
         r = rng.random()
         if r < 0.2:
             return ("decline",)
-        return ("wrap", rng.randrange(1, 10), rng.randrange(1, 10) if with_default or rng.random() < 0.35 else None)
+        kind = "wneed" if need_p and tier not in ("first", "both") and rng.random() < need_p / 2 else "wrap"
+        return (kind, rng.randrange(1, 10), rng.randrange(1, 10) if with_default or rng.random() < 0.35 else None)
+    if need_p and rng.random() < need_p:
+        # reads the input of its object (fails while it is missing / unusable); mostly with the `cycle` argument
+        return ("need", rng.randrange(0, 10), int(rng.random() < 0.7))
     r = rng.random()
     if r < 0.28:
         return ("ret", None)
@@ -789,11 +1065,17 @@ def gen_body(rng, w, n_classes, with_default=False):
     return ("del", rng.randrange(n_classes))
 
 
+# A wrapper that raises BEFORE its yield is registered in the tiers normal / trylast only.  A tryfirst one would abort the very
+# first MRO walk of `functions_gen` half-way (the generator is lazy), so that WHICH per-subclass Hook objects exist afterwards
+# depends on the point of the abort; the model (`touchEval`) creates them all, as every evaluation does that gets past the
+# tryfirst wrappers.  The property does not depend on it (accesses are irrelevant: `touch_irrelevant`); the registry
+# comparison of the correspondence would.
+WNEED_NOTE = "wrappers that raise before their yield: tiers normal / trylast only"
 MAX_BARE_WRAPPERS = 4
 MAX_WRAPPERS = 6      # also with defaults: a regression of the re-entrancy marks doubles the work per wrapper
 
 
-def gen_history(rng, max_ops, malformed=False, same_p=None):
+def gen_history(rng, max_ops, malformed=False, same_p=None, used_p=None, need_p=None, min_ops=4):
     cls_ops = gen_hierarchy(rng)
     n = len(cls_ops)
     late = [op for op in cls_ops if op[1] > 0 and not any(op[1] in o[2] for o in cls_ops) and rng.random() < 0.25]
@@ -812,7 +1094,7 @@ def gen_history(rng, max_ops, malformed=False, same_p=None):
     labels = []           # (label, cls) of adds emitted so far
     live = []
     tier_of = {}
-    n_ops = rng.randrange(4, max_ops + 1)
+    n_ops = rng.randrange(min(min_ops, max_ops), max_ops + 1)
     nl = 0
     wrapper_p = rng.choice([0.15, 0.35, 0.6])
     # share of operations that register a function object that is registered already (stream `same`)
@@ -823,6 +1105,16 @@ def gen_history(rng, max_ops, malformed=False, same_p=None):
     # such wrappers.  Half of the histories therefore give every wrapper a default (up to MAX_WRAPPERS wrappers), the other
     # half allow wrappers without default but at most MAX_BARE_WRAPPERS wrappers in the whole history.
     safe = rng.random() < 0.5
+    # share of operations on USED objects (objects that stay: created without input, read too early / with unusable input
+    # / again after the input was supplied, has_value probes, reevaluate_cache) and of plain implementations that need the
+    # input of their object (stream `used`)
+    if used_p is None:
+        used_p = rng.choice([0.0, 0.0, 0.08, 0.2])
+    if need_p is None:
+        need_p = rng.choice([0.0, 0.1, 0.3]) if used_p else rng.choice([0.0, 0.0, 0.1])
+    objects = []          # numbers of the objects created so far
+    inp_of = {}
+    wneed_labels = set()
     n_wrappers = 0
     wrapper_of = {}
     max_w = MAX_WRAPPERS if safe else MAX_BARE_WRAPPERS
@@ -833,6 +1125,44 @@ def gen_history(rng, max_ops, malformed=False, same_p=None):
             op = late.pop(0)
             ops.append(op)
             defined.append(op[1])
+            continue
+        if used_p and (len(labels) >= 2 or rng.random() < 0.25) and rng.random() < used_p:
+            rr = rng.random()
+            if not objects or (len(objects) < 3 and rr < 0.12):
+                o = len(objects)
+                objects.append(o)
+                # mostly an object of a class for which something is registered (on it or on a base)
+                reg = [k for k in defined if any(q == k or q in ancestors(k) for _, q in live)]
+                if reg and rng.random() < 0.85:
+                    c = rng.choice(reg)
+                ops.append(("obj", o, c))
+                inp_of[o] = 0
+                rr = rng.random()
+                if rr < 0.4:           # sometimes the input is there from the start, or unusable
+                    inp_of[o] = 2 if rr < 0.25 else 1
+                    ops.append(("oinp", o, inp_of[o]))
+                continue
+            o = rng.choice(objects)
+            if inp_of[o] != 2 and rr < 0.45:
+                # asked too early (or probed with has_value / re-evaluated), then the input is supplied and it is asked again
+                ops.append(rng.choice([("oread", o, "get"), ("oread", o, "get"), ("oread", o, "has"), ("oreval", o)]))
+                if rng.random() < 0.3:
+                    k = rng.choice(defined)
+                    ops.append(rng.choice([("read", k), ("fns", k), ("oread", rng.choice(objects), "get")]))
+                inp_of[o] = 2
+                ops.append(("oinp", o, 2))
+                ops.append(("oread", o, rng.choice(["get", "get", "get", "has"])))
+            elif rr < 0.62:
+                ops.append(("oread", o, "get"))
+            elif rr < 0.7:
+                ops.append(("oread", o, "has"))
+            elif rr < 0.8:
+                ops.append(("oreval", o))
+            else:
+                inp_of[o] = rng.choice([0, 1, 1, 2, 2])
+                ops.append(("oinp", o, inp_of[o]))
+                if rng.random() < 0.6:
+                    ops.append(("oread", o, rng.choice(["get", "get", "has"])))
             continue
         if labels and rng.random() < same_p:
             # the SAME function object once more: on the same class (after other registrations), on a subclass while a
@@ -849,6 +1179,9 @@ def gen_history(rng, max_ops, malformed=False, same_p=None):
             elif rr < 0.85:
                 c = rng.choice(related)
             tier = tier_of[lab] if rng.random() < 0.75 else rng.choice(TIERS)
+            if lab in wneed_labels:
+                wneed_labels.add(nl)
+                tier = "normal" if tier == "first" else tier
             n_wrappers += wrapper_of[lab]
             wrapper_of[nl] = wrapper_of[lab]
             tier_of[nl] = tier
@@ -874,9 +1207,16 @@ def gen_history(rng, max_ops, malformed=False, same_p=None):
             n_wrappers += w
             wrapper_of[nl] = w
             tier = rng.choice(["first", "normal", "normal", "normal", "last", "both" if malformed else "normal"])
-            tier_of[nl] = "first" if tier == "both" else tier
             how = rng.choice(["call", "call", "deco"])
-            op = ("add", nl, c, tier, w, gen_body(rng, w, n, with_default=safe), how)
+            body = gen_body(rng, w, n, with_default=safe, need_p=need_p, tier=tier)
+            if need_p >= 0.4 and not w and tier != "both" and rng.random() < 0.5:
+                # dense stream: implementations that need the input rather in front (so that they are reached), constants
+                # rather as fallback behind them
+                tier = rng.choice(["first", "normal"]) if body[0] == "need" else "last" if body[0] == "ret" else tier
+            tier_of[nl] = "first" if tier == "both" else tier
+            if body[0] == "wneed":
+                wneed_labels.add(nl)
+            op = ("add", nl, c, tier, w, body, how)
             labels.append((nl, c))
             live.append((nl, c))
             nl += 1
@@ -898,6 +1238,9 @@ def gen_history(rng, max_ops, malformed=False, same_p=None):
             n_wrappers += wrapper_of[lab]
             wrapper_of[nl] = wrapper_of[lab]
             tier = rng.choice(TIERS)
+            if lab in wneed_labels:
+                wneed_labels.add(nl)
+                tier = "normal" if tier == "first" else tier
             tier_of[nl] = tier
             op = ("readd", nl, c, tier, lab)
             labels.append((nl, c))
@@ -970,6 +1313,21 @@ CORPUS = [
     [("class", 0, [], 1, 0), ("class", 1, [0], 0, 0), ("add", 0, 0, "normal", 1, ("wrap", 3, None), "call"),
      ("add", 1, 0, "last", 0, ("ret", 4), "call"), ("same", 2, 1, "normal", 0, "call"), ("read", 1), ("read", 0),
      ("rm", 0, 0, "call"), ("read", 1), ("read", 0)],
+    # an object asked too early (attribute read, has_value probe), then given its input: it resolves like a fresh object -
+    # the implementation that needs the input answers, the cycle-guarded wrapper is applied once
+    [("class", 0, [], 1, 0), ("add", 0, 0, "last", 0, ("ret", 5), "call"), ("add", 1, 0, "normal", 0, ("need", 4, 1), "deco"),
+     ("add", 2, 0, "normal", 1, ("wrap", 1, None), "call"), ("obj", 0, 0), ("oread", 0, "get"), ("oread", 0, "has"),
+     ("oinp", 0, 2), ("oread", 0, "get"), ("oread", 0, "get"), ("read", 0)],
+    # unusable input (the implementation raises ValueError), input repaired; reevaluate_cache while the input is unusable
+    # again leaves the cached value, afterwards the object re-evaluates like a fresh one; subclass object, wrapper on the base
+    [("class", 0, [], 1, 0), ("class", 1, [0], 0, 0), ("add", 0, 0, "normal", 1, ("wrap", 2, 7), "call"),
+     ("add", 1, 1, "first", 0, ("need", 3, 1), "call"), ("add", 2, 0, "last", 0, ("ret", 6), "call"), ("obj", 0, 1),
+     ("oinp", 0, 1), ("oread", 0, "get"), ("oinp", 0, 2), ("oread", 0, "has"), ("oinp", 0, 1), ("oreval", 0),
+     ("oinp", 0, 2), ("add", 3, 1, "first", 0, ("need", 8, 0), "call"), ("oreval", 0), ("oread", 0, "get")],
+    # a wrapper that reads the input before its yield, inside another wrapper; two objects, one of them never fails
+    [("class", 0, [], 1, 0), ("add", 0, 0, "normal", 0, ("ret", 2), "call"), ("add", 1, 0, "normal", 1, ("wneed", 3, None), "call"),
+     ("add", 2, 0, "first", 1, ("wrap", 1, None), "call"), ("obj", 0, 0), ("obj", 1, 0), ("oinp", 1, 2),
+     ("oread", 0, "get"), ("oread", 1, "get"), ("oinp", 0, 2), ("oread", 0, "get"), ("oreval", 1)],
 ]
 
 
@@ -1009,6 +1367,11 @@ def run(ctx):
     for k in range(max(1, n_hist // 8)):
         # dense stream: short histories on small hierarchies in which most registrations re-use a function object
         histories.append((gen_history(ctx.rng, min(max_ops, 14), False, same_p=0.5), "same-function"))
+    for k in range(max(1, n_hist // 6)):
+        # dense stream: objects that are used several times (too early, with unusable input, after the input came,
+        # has_value, reevaluate_cache) while registrations come and go; many implementations need the input
+        histories.append((gen_history(ctx.rng, min(max_ops, 30), False, same_p=ctx.rng.choice([0.0, 0.1]),
+                                      used_p=0.45, need_p=0.6, min_ops=12), "used-object"))
     lean_lines = []
     results = []
     seen_keys = set()
@@ -1025,6 +1388,8 @@ def run(ctx):
             ctx.count("read:aborted-by-harness")
         for kind in res["stats"].get("same", []):
             ctx.count("same-function:" + kind)
+        for kind in res["stats"].get("uses", []):
+            ctx.count("used-object:" + kind)
         for (_, line, ans, _, _) in res["rows"]:
             if ans == "AttributeError":
                 ctx.count("err:AttributeError")
@@ -1039,7 +1404,13 @@ def run(ctx):
         if stream == "valid" and is_nontrivial(res) and len(ops) <= 14:
             ctx.sample({"history": [r[1] for r in res["rows"]], "answers": [r[2] for r in res["rows"]]}, limit=3)
         lean_lines.append("reset")
-        for (_, line, ans, obs_line, obs) in res["rows"]:
+        for k, (_, line, ans, obs_line, obs) in enumerate(res["rows"]):
+            if ans.count(" ") > MODEL_TRACE_LIMIT:
+                # (outside the wrapper protocol the number of invocations grows like n!; the model appends to its trace in
+                # linear time, i.e. needs quadratic time: the correspondence stops before such a read, the oracle does not)
+                del res["rows"][k:]
+                ctx.count("model:history-cut-before-long-trace")
+                break
             lean_lines.append(line)
             lean_lines.append(obs_line)
         if res["problems"]:
@@ -1059,7 +1430,9 @@ def run(ctx):
                 "lines": [r[1] for r in rr["rows"]], "answers": [r[2] for r in rr["rows"]],
                 "how": "driver/props/c01.py: Real().apply(op) for every op tuple (classes K<c> are created with type() "
                        "as subclasses of pyroll.core.HookHost, the hook is `h`); the oracle is Real.classify_order / "
-                       "Real.check_read; `./check C01 --replay <this file>` re-runs it"})
+                       "Real.check_read / Real.check_use; after the last op the final sweep of run_history lists and reads every "
+                       "class on a fresh object and reads every used object - as it is and once more after `o.inp = 1`; "
+                       "`./check C01 --replay <this file>` re-runs it"})
     # ---- model side ----------------------------------------------------------------------------------------------
     if getattr(ctx, "model_available", True):
         out = ctx.lean_model(MODEL, lean_lines)
@@ -1069,7 +1442,7 @@ def run(ctx):
             bad = None
             for k, (i, line, ans, obs_line, obs) in enumerate(res["rows"]):
                 m_ans = out[pos] if pos < len(out) else "<eof>"
-                if line.startswith("read"):
+                if line.startswith(("read", "oread", "ohas", "oreval")):
                     m_ans = to_function_trace(m_ans, res["fid_of"])
                 m_obs = out[pos + 1] if pos + 1 < len(out) else "<eof>"
                 pos += 2
